@@ -66,6 +66,7 @@ def run(ctx):
     obs = vf.read_ndjson(obsf)
     if len(obs) != len(runs):
         raise vf.Infra("harness replayed %d of %d walks" % (len(obs), len(runs)))
+    cut = [o for o in obs if o["truncated"]]
     for o in obs:
         if len(o["obs"]) != len(o["ops"]):
             raise vf.Infra("run %d: %d observations for %d operations" % (o["run"], len(o["obs"]), len(o["ops"])))
@@ -83,6 +84,11 @@ def run(ctx):
                                bad["monitor"], k, op["k"], json.dumps(op["l"]), json.dumps(prev, sort_keys=True),
                                json.dumps(o["obs"][k - 1], sort_keys=True), json.dumps(o["ops"][:k])[:1200]))
     drift = tv.tagged("DRIFT")
+    badruns = {b["l"] for b in tv.tagged("BAD")}
+    for i, o in enumerate(obs):
+        if o["truncated"] and (i + 1) not in badruns:
+            raise vf.Infra("run %d was cut short by the harness (%s) although no formula fails on it" % (o["run"], o["truncated"]))
+    ctx.set("walks_cut_short", len(cut))
     ctx.set("traces_validated_against_impl", len(obs))
     ctx.set("steps_replayed", sum(len(o["ops"]) for o in obs))
     ctx.set("drift_runs", len(drift))
